@@ -502,6 +502,19 @@ M.contract(P_TS + ':TokenStream.consume', params=dict(self=TS), trusted=True,
 M.trust('TokenStream.consume: raises TokenSyntaxError exactly when a syntax error description is pending (its first statement); the value returned is the head token as it was (`ret_val = self._head_token`); the next statement is `self._start_pos = self._source_io.tell()`; '
         'the lexer only moves forward and not beyond the end (frame contract; token boundaries: bounded stand-in)')
 
+def blank(text):
+    return text == '' or text.isspace()
+
+
+def note_skipped_text(ghost, text):
+    """Ghost monitor for callers that DISCARD the text this function returns (the list element loop): if the
+    monitor variable exists it stays true only while every skipped text is blank or a lone continuation token `\\`
+    (surrounded by white space only)."""
+    if 'skipped_only_blank_or_continuation' in ghost:
+        ghost['skipped_only_blank_or_continuation'] = (ghost['skipped_only_blank_or_continuation']
+                                                       and (blank(text) or text.strip() == '\\'))
+
+
 M.contract(P_TS + ':TokenStream._consume_remaining_part_of_current_line',
            params=dict(self=TS, do_forward_to_next_line=Bool),
            old=lambda self: (self._start_pos, self._source),
@@ -516,6 +529,7 @@ M.contract(P_TS + ':TokenStream._consume_remaining_part_of_current_line',
                'advances-to-the-line-break-or-past-it': lambda self, do_forward_to_next_line, old, result:
                self._start_pos == (old[0] + len(result) if old[0] + len(result) == len(old[1])
                                    else old[0] + len(result) + (1 if do_forward_to_next_line else 0)),
+               'skipped-text-monitor': (lambda ghost, result: note_skipped_text(ghost, result), 'effect'),
            },
            raises_only=())
 
@@ -1156,10 +1170,6 @@ from contracts.common import forall_range  # noqa: E402
 P_GP = 'exactly_lib.impls.types.list_.generic_parser'
 
 
-def blank(text):
-    return text == '' or text.isspace()
-
-
 class ElementI(Interface):
     """result of the element parser: only its abstract image (the source text of the consumed token) is used"""
     target_class = Either
@@ -1212,6 +1222,7 @@ EUEOLP = Inst(ElementsUntilEndOfLineParser2, _element_parser=Iface(ElementParser
 def _setup_consumed(interp, args, ghosts):
     from pyvc.mlist import MList
     interp.st.ghost['consumed'] = MList(interp, interp.st.fresh_name('consumed'), ('str',))
+    interp.st.ghost['skipped_only_blank_or_continuation'] = True
     return None
 
 
@@ -1219,13 +1230,40 @@ def same_items(xs, ys):
     return len(xs) == len(ys) and forall_range(0, len(xs), lambda k: xs[k] == ys[k])
 
 
+_LIST_REPLAY = """
+import warnings
+warnings.simplefilter('ignore')
+from exactly_lib.impls.types.list_ import parse_list
+from exactly_lib.section_document.element_parsers.token_stream_parser import new_token_parser
+from exactly_lib.util.symbol_table import empty_symbol_table
+BS = chr(92)
+bad = []
+for source, expected, expected_rest in (
+        ('a ' + BS + ' b' + chr(10) + 'next', ['a', BS, 'b'], chr(10) + 'next'),     # a lone backslash inside the line
+        ('a ' + BS + '  ' + chr(10) + ' b' + chr(10) + 'next', ['a', 'b'], chr(10) + 'next'),   # continuation
+        ('a b ) c', ['a', 'b'], ') c')):                                               # stop token
+    tp = new_token_parser(source)
+    ddv = parse_list.parse_list_from_token_parser(tp).resolve(empty_symbol_table())
+    actual = [e.value_when_no_dir_dependencies() for e in ddv.string_elements]
+    rest = tp.token_stream.remaining_source
+    print('%r: elements %r rest %r (the written elements: %r, rest %r)' % (source, actual, rest, expected, expected_rest))
+    if actual != expected or rest != expected_rest:
+        bad.append(source)
+sys.exit(1 if bad else 0)
+"""
+
 M.contract(P_GP + ':ElementsUntilEndOfLineParser2.parse', params=dict(self=EUEOLP, token_parser=TP),
-           setup=_setup_consumed,
+           setup=_setup_consumed, replay=lambda model, rf: _LIST_REPLAY,
            old=lambda token_parser: _tp_state(token_parser),
-           modifies={**_TS_FRAME, 'ghost:consumed': MListOf(Str)},
+           modifies={**_TS_FRAME, 'ghost:consumed': MListOf(Str), 'ghost:skipped_only_blank_or_continuation': Bool},
            raises={SingleInstructionInvalidArgumentException: {}},
            returns=MListOf(Str),
            ensures={
+               # "list elements are exactly the written elements", "following arguments are not swallowed": the only
+               # text of the source that is passed over without being parsed as an element is white space and the
+               # continuation token `\\` when nothing but white space follows it on its line
+               'nothing-but-blank-text-and-line-continuations-is-skipped': lambda ghost:
+               ghost['skipped_only_blank_or_continuation'],
                'one-element-per-consumed-token-in-order': lambda result, ghost: same_items(result, ghost['consumed']),
                'source-unchanged': lambda token_parser, old: _hd_source(token_parser) == old[2],
                'stops-at-the-line-break-or-before-the-stop-token': lambda token_parser:
@@ -1238,9 +1276,10 @@ M.contract(P_GP + ':ElementsUntilEndOfLineParser2.parse', params=dict(self=EUEOL
 M.loop(P_GP + ':ElementsUntilEndOfLineParser2.parse', 0,
        invariant=lambda token_parser, ret_val, old, ghost:
        same_items(ret_val, ghost['consumed']) and _hd_source(token_parser) == old[2]
-       and ts_inv(token_parser._token_stream),
+       and ts_inv(token_parser._token_stream)
+       and ghost['skipped_only_blank_or_continuation'],
        modifies={**_TS_FRAME, 'ret_val': MListOf(Str), 'sym_name_or_element': 'local',
-                 'ghost:consumed': MListOf(Str)})
+                 'ghost:consumed': MListOf(Str), 'ghost:skipped_only_blank_or_continuation': Bool})
 
 
 # ------------------------------------------------------------------------------ bounded stand-in: leftmost references
